@@ -27,6 +27,21 @@ static inline void out_num(struct tokout* o, long v) {
 #define OUT_NUM(o, x) out_num(o, (long)(x))
 /* floor() for |x| < 2^52 (CBMC 6.11's built-in model of floor aborts with an internal error) */
 static inline double vfloor(double x) { __CPROVER_assert(x > -4.0e15 && x < 4.0e15, "model: floor() only for small magnitudes"); long t = (long)x; double r = (double)t; return r > x ? r - 1.0 : r; }
+/* ---- character stream of the string encoder: std::istringstream get / peek / eof (eofbit is set by a read at the end, not before) ---- */
+#define CSCAP 12
+struct cstream { unsigned char s[CSCAP]; size_t n, pos; _Bool eofbit; };
+static inline _Bool cs_eof(const struct cstream* c) { return c->eofbit; }
+static inline int cs_peek(struct cstream* c) { if (c->pos < c->n && c->pos < CSCAP) return c->s[c->pos]; c->eofbit = 1; return -1; }
+static inline int cs_get(struct cstream* c) { if (c->pos < c->n && c->pos < CSCAP) { int v = c->s[c->pos]; c->pos = c->pos + 1; return v; } c->eofbit = 1; return -1; }
+struct tok2 { unsigned char d[3]; size_t n; };
+static inline void tok2_clear(struct tok2* t) { t->n = 0; t->d[0] = 0; }
+static inline void tok2_push(struct tok2* t, symbol_t c) { __CPROVER_assert(t->n < 2, "two character token"); if (t->n < 2) { t->d[t->n] = c; t->n = t->n + 1; t->d[t->n] = 0; } }
+static inline int hexval(unsigned c) { return (c >= '0' && c <= '9') ? (int)c - '0' : (c >= 'a' && c <= 'f') ? (int)c - 'a' + 10 : (c >= 'A' && c <= 'F') ? (int)c - 'A' + 10 : -1; }
+/* parseInt(token, 16, 0, 0xff): two hex digits give their value, anything else is rejected (contract of parseInt in unit symbol; a sign character is outside this model) */
+static inline unsigned env_hex2(const struct tok2* t, result_t* res) {
+  if (t->n == 2 && hexval(t->d[0]) >= 0 && hexval(t->d[1]) >= 0) { *res = RESULT_OK; return (unsigned)(16 * hexval(t->d[0]) + hexval(t->d[1])); }
+  *res = RESULT_ERR_INVALID_NUM; return 0;
+}
 /* ---- input text of the encoder as a token sequence: numbers and null values, separated as the type expects ---- */
 #define TOKC 6
 struct iss { int kind[TOKC]; long val[TOKC]; size_t n, pos; };       /* kind: 0 = "-", 1 = decimal number, 2 = anything else */
@@ -330,3 +345,66 @@ WR(bti, dtt_BTI, 3, WK_TIME, 0) WR(hti, dtt_HTI, 3, WK_TIME, 0) WR(vti, dtt_VTI,
 WR(min, dtt_MIN, 2, WK_MIN, 0) WR(ttm, dtt_TTM, 1, WK_TRUNC, 10) WR(tth, dtt_TTH, 1, WK_TRUNC, 30) WR(ttq, dtt_TTQ, 1, WK_TRUNC, 15)
 WR(bda, dtt_BDA, 4, WK_DATE, 0) WR(bda3, dtt_BDA_3, 3, WK_DATE, 0) WR(hda, dtt_HDA, 4, WK_DATE, 0) WR(hda3, dtt_HDA_3, 3, WK_DATE, 0)
 WR(day, dtt_DAY, 2, WK_DAY, 0) WR(dtm, dtt_DTM, 4, WK_DTM, 0)
+
+/* ---------------- strings: decode -> text -> encode (C06), and encoding of arbitrary hex texts (C07) ---------------- */
+static inline unsigned char hexdigit(unsigned v) { return (unsigned char)(v < 10 ? '0' + v : 'a' + (v - 10)); }
+void h_rt_hex(void) {
+  STT t = nondet_STT(); SymbolString in = slave_with(SLEN); struct tokout o; out_init(&o); g_hex_expected = 1;
+  __CPROVER_assume(t.m_isHex && !(t.m_flags & IGN));
+  result_t r = STT_readSymbols(&t, 0, SLEN, &in, 0, &o);
+  __CPROVER_assume(r == RESULT_OK && o.n == 2 * SLEN - 1);
+  struct cstream text; text.n = 0; text.pos = 0; text.eofbit = 0;           /* the shown text: two hex digits per group, one blank between groups */
+  for (size_t k = 0; k < 2 * SLEN - 1; k++) { if (o.kind[k] == TK_NUM) { text.s[text.n] = hexdigit(((unsigned)o.val[k] >> 4) & 0xf); text.s[text.n + 1] = hexdigit((unsigned)o.val[k] & 0xf); text.n += 2; } else { text.s[text.n] = ' '; text.n += 1; } }
+  SymbolString out; out.m_isMaster = 0; out.m_data.n = 1; out.m_data.d[0] = 0; size_t used = nondet_size();
+  result_t w = STT_writeSymbols(&t, 0, SLEN, &text, &out, &used);
+  __CPROVER_assert(w == RESULT_OK && used == SLEN && out.m_data.n == 1 + SLEN, "[C06] the hex text a byte pattern decodes to is accepted by the encoder");
+  size_t k = nondet_size(); __CPROVER_assume(k < SLEN);
+  if (w == RESULT_OK) __CPROVER_assert(out.m_data.d[1 + k] == in.m_data.d[1 + k], "[C06] encoding the decoded hex text reproduces the bytes");
+  CANARY("hex round trip");
+}
+void h_rt_str(void) {
+  STT t = nondet_STT(); SymbolString in = slave_with(SLEN); struct tokout o; out_init(&o); g_hex_expected = 0;
+  __CPROVER_assume(!t.m_isHex && !(t.m_flags & (REV | IGN)) && (unsigned char)t.m_replacement == t.m_replacement);
+  /* printable text up to padding: printable characters, then only padding (the replacement character) */
+  size_t plen = nondet_size(); __CPROVER_assume(plen <= SLEN);
+  for (size_t i = 0; i < SLEN; i++) { unsigned b = in.m_data.d[1 + i]; if (i < plen) __CPROVER_assume(b >= 0x20 && b < 0x7f); else __CPROVER_assume(b == t.m_replacement); }
+  __CPROVER_assume(t.m_replacement == ' ' || t.m_replacement == 0);          /* STR is padded with blanks, NTS with NUL */
+  result_t r = STT_readSymbols(&t, 0, SLEN, &in, 0, &o);
+  __CPROVER_assume(r == RESULT_OK);
+  struct cstream text; text.n = 0; text.pos = 0; text.eofbit = 0;
+  for (size_t k = 0; k < SLEN; k++) { if (k < o.n && o.kind[k] == TK_CHAR) { text.s[text.n] = (unsigned char)o.val[k]; text.n += 1; } }
+  SymbolString out; out.m_isMaster = 0; out.m_data.n = 1; out.m_data.d[0] = 0; size_t used = nondet_size();
+  result_t w = STT_writeSymbols(&t, 0, SLEN, &text, &out, &used);
+  __CPROVER_assert(w == RESULT_OK && used == SLEN && out.m_data.n == 1 + SLEN, "[C06] the text a character string decodes to is accepted by the encoder");
+  size_t k = nondet_size(); __CPROVER_assume(k < SLEN);
+  if (w == RESULT_OK) __CPROVER_assert(out.m_data.d[1 + k] == in.m_data.d[1 + k], "[C06] encoding the decoded text reproduces the bytes (printable text, padded with the replacement character)");
+  if (plen == 2) { CANARY("string round trip"); }
+}
+/* encoding an arbitrary hex text: groups of two hex digits separated by blanks, missing groups are filled with the replacement */
+void h_wr_hex(void) {
+  STT t = nondet_STT(); struct cstream text; SymbolString out; size_t used = nondet_size();
+  __CPROVER_assume(t.m_isHex && !(t.m_flags & (IGN | REV)) && t.m_replacement <= 0xff);
+  text.n = nondet_size(); text.pos = 0; text.eofbit = 0; __CPROVER_assume(text.n <= 8);
+  for (size_t i = 0; i < CSCAP; i++) { text.s[i] = nondet_sym(); if (i < text.n) __CPROVER_assume(text.s[i] != '+' && text.s[i] != '-' && text.s[i] != 0); }
+  out.m_isMaster = 0; out.m_data.n = 1; out.m_data.d[0] = 0;
+  result_t w = STT_writeSymbols(&t, 0, SLEN, &text, &out, &used);
+  /* reference scan */
+  size_t p = 0; unsigned exp[SLEN]; _Bool bad = 0;
+  for (size_t g = 0; g < SLEN; g++) {
+    exp[g] = t.m_replacement;
+    if (!bad) {
+      for (size_t b = 0; b < CSCAP; b++) { if (p < text.n && text.s[p] == ' ') p++; }
+      if (p < text.n) {
+        if (p + 1 < text.n && hexval(text.s[p]) >= 0 && hexval(text.s[p + 1]) >= 0) { exp[g] = (unsigned)(16 * hexval(text.s[p]) + hexval(text.s[p + 1])); p += 2; }
+        else bad = 1;
+      }
+    }
+  }
+  if (bad) { __CPROVER_assert(w < 0, "[C07] a hex text with an incomplete or non-hex group is rejected"); CANARY("rejected"); }
+  else {
+    __CPROVER_assert(w == RESULT_OK && used == SLEN, "[C06,C07] a well-formed hex text is encoded");
+    size_t k = nondet_size(); __CPROVER_assume(k < SLEN);
+    if (w == RESULT_OK) __CPROVER_assert(out.m_data.d[1 + k] == (symbol_t)exp[k], "[C06,C07] byte k is the k-th group of two hex digits (missing groups: the replacement)");
+    CANARY("encoded");
+  }
+}
